@@ -2,6 +2,7 @@ import RedactVerif.Props.C01
 import RedactVerif.Props.FactsConsts
 import RedactVerif.Props.FactsSkelBuffer
 import RedactVerif.Props.TransEscape
+import RedactVerif.Props.TransMarkers
 /-
 C10 — escaping removes every marker from arbitrary bytes and nothing else.
 
@@ -124,5 +125,26 @@ theorem write_split (b : Buffer) (p q : List Byte) : (b.write p).write q = b.wri
 /-! Non-vacuity -/
 example : escapeMarkers ([0x61] ++ startB ++ [0xE2, 0x80] ++ endB) = [0x61, 0x3F, 0xE2, 0x80, 0x3F] := by decide
 example : escapeBytes [0xE2, 0x0A, 0x80, 0xB9] = startB ++ [0xE2] ++ endB ++ [0x0A] ++ startB ++ [0x80, 0xB9, 0x3F] ++ endB := by decide
+
+/-! ### The same, stated on the functions as the translator reads them off the source on every run
+(`markers.EscapeMarkers`, `rfmt.EscapeBytes`; equality with the model: Props/TransMarkers.lean) -/
+
+theorem translated_escapeMarkers_no_marker (l : List Byte) : ∀ x ∈ tokenize (Trans.M_EscapeMarkers l), x.isMarker = false := by
+  rw [m_escapeMarkers]; exact escapeMarkers_no_marker l
+
+theorem translated_escapeMarkers_spec (l : List Byte) : tokenize (Trans.M_EscapeMarkers l) = escT (tokenize l) := by
+  rw [m_escapeMarkers]; exact escapeMarkers_spec l
+
+theorem translated_escapeMarkers_idem (l : List Byte) : Trans.M_EscapeMarkers (Trans.M_EscapeMarkers l) = Trans.M_EscapeMarkers l := by
+  simp only [m_escapeMarkers]; exact escapeMarkers_idem l
+
+theorem escapeBytes_scanner_call (s : List Byte) :
+    Trans.InternalEscapeBytes (startB ++ s) 3 true false = some (escapeBytesAt (startB ++ s) 3 true false) :=
+  internalEscapeBytes_translated (startB ++ s) 3 true false (by simp [startB])
+
+theorem translated_escapeBytes_wf (s : List Byte) : Obtainable (Trans.EscapeBytes s) := by
+  rw [escapeBytes_translated]; exact escapeBytes_wf s
+
+example : Trans.EscapeBytes [0xE2, 0x0A, 0x80, 0xB9] = startB ++ [0xE2] ++ endB ++ [0x0A] ++ startB ++ [0x80, 0xB9, 0x3F] ++ endB := by decide
 
 end Redact
